@@ -582,7 +582,43 @@ func (tr *trans) call(v ssa.Value, c *ssa.CallCommon, st State) {
 			return
 		}
 	}
+	// call of a value of a named function type that is declared `purefn` (type-level contract `func TypeName`):
+	// the value is a deterministic function of its arguments
+	if sym, rt := tr.dynPureSym(c.Value.Type()); sym != "" {
+		r := app(sym, append([]Term{tr.val(c.Value)}, args...)...)
+		tr.setResults(v, []Term{r})
+		if inv := tr.typeInv(r, rt, st, 0); inv != "true" {
+			tr.vc.assume(implies(reach, inv))
+		}
+		return
+	}
 	tr.uncontracted(v, "dynamic call of "+c.Value.Name()+" at "+tr.srcText(pos), sig, st)
+}
+
+// dynPureSym: for a named function type with a `purefn` type-level contract, the uninterpreted symbol that
+// stands for "apply" (first argument: the function value), and the result type.
+func (tr *trans) dynPureSym(t types.Type) (string, types.Type) {
+	n, ok := t.(*types.Named)
+	if !ok || n.Obj().Pkg() == nil {
+		return "", nil
+	}
+	sig, ok := n.Underlying().(*types.Signature)
+	if !ok || sig.Results().Len() != 1 {
+		return "", nil
+	}
+	key := n.Obj().Pkg().Path() + "." + n.Obj().Name()
+	fc := tr.prog.CS.Funcs[key]
+	if fc == nil || !fc.PureFn {
+		return "", nil
+	}
+	sym := q("dyn." + key)
+	ps := []Sort{"Int"}
+	for i := 0; i < sig.Params().Len(); i++ {
+		ps = append(ps, tr.vc.sortOf(sig.Params().At(i).Type()))
+	}
+	tr.declSym(sym, ps, tr.vc.sortOf(sig.Results().At(0).Type()))
+	tr.note("values of function type " + key + " are deterministic, side-effect-free functions of their arguments (type-level purefn contract)")
+	return sym, sig.Results().At(0).Type()
 }
 
 func (tr *trans) uncontracted(v ssa.Value, key string, sig *types.Signature, st State) {
@@ -712,11 +748,20 @@ func (tr *trans) applyContract(fc *FuncContract, sig *types.Signature, key strin
 		old := tr.getState(st, "$next")
 		n := tr.havocState(st, "$next")
 		tr.vc.assume(app(">=", n, old))
+		tr.assumeHeapWF(st, append(sortedKeys(fp.whole), sortedKeys(fp.at)...))
 	}
 	// results
 	var rs []Term
 	if preRes != nil {
 		rs = preRes
+		// results of pure functions are ordinary values of their types (e.g. a nil interface has no payload)
+		for i, r := range rs {
+			if i < sig.Results().Len() {
+				if inv := tr.typeInv(r, sig.Results().At(i).Type(), st, 0); inv != "true" {
+					tr.vc.assume(implies(reach, inv))
+				}
+			}
+		}
 	} else {
 		rs = tr.freshResults(fmt.Sprintf("call%d", cid), sig, st)
 	}
@@ -904,6 +949,9 @@ func (tr *trans) appendCall(v ssa.Value, c *ssa.CallCommon, st State, pos token.
 	// old element carries over to its place in the result (E-matching needs the new term to exist). The index
 	// forms are chosen so that they cancel against the axioms above (no matching loop).
 	An := tr.getState(st, h)
+	// every other array is untouched: stated from the old heap's side, so that facts about elements of other
+	// slices of the same element type carry over (their reads in the new heap get named)
+	tr.vc.assume(fmt.Sprintf("(forall ((r Int)) (! (=> (and (not (= r (sarr %s))) (not (= r %s))) (= (select %s r) (select %s r))) :pattern ((select %s r))))", s, ref, An, A, A))
 	if isConst && k <= 4 {
 		// name the appended elements in the result
 		nv := tr.vals[v]
